@@ -166,6 +166,8 @@ func (e *oEnv) set(o types.Object, v oval) {
 func (e *oEnv) define(o types.Object, v oval) { e.vars[o] = &v }
 
 type oInterp struct {
+	mutexState map[*oStruct]int // sync.Mutex / RWMutex values: -1 held exclusively, n > 0 shared by n
+	libPanic   string           // set by a library model that found the call fatal; raised by the caller
 	p        *Prog
 	maxDepth int
 	// mapReverse makes `range` over a map visit the entries in the reverse of insertion order: a
@@ -679,11 +681,25 @@ func (fr *oFrame) stmt(s ast.Stmt) oCtl {
 		case oBound:
 			if fr.it.p.Decl(fn.f) == nil {
 				// a method of a type outside the repository: the model decides when the frame unwinds
-				if fr.it.stub == nil {
+				if fr.it.stub == nil && !strings.HasPrefix(fn.f.FullName(), "(*sync.") {
 					return fr.abort("defer of external %s", fn.f.FullName())
 				}
 				fr.defers = append(fr.defers, func() {
-					if _, ok := fr.it.stub(fn.f, fn.recv, args); !ok && fr.why == "" {
+					if fr.it.stub != nil {
+						if _, ok := fr.it.stub(fn.f, fn.recv, args); ok {
+							return
+						}
+					}
+					if _, ok := fr.it.coreLib(fn.f, fn.recv, args); ok {
+						if lp := fr.it.libPanic; lp != "" {
+							fr.it.libPanic = ""
+							if fr.why == "" {
+								fr.why = lp
+							}
+						}
+						return
+					}
+					if fr.why == "" {
 						fr.why = "deferred call to " + fn.f.FullName() + " (outside the repo)"
 					}
 				})
@@ -2094,6 +2110,11 @@ func (fr *oFrame) call(call *ast.CallExpr) []oval {
 	}
 	if fr.it.p.Decl(f) == nil {
 		if out, ok := fr.it.coreLib(f, recv, args); ok {
+			if lp := fr.it.libPanic; lp != "" {
+				fr.it.libPanic = ""
+				fr.abort("%s at %s", lp, fr.it.p.Position(call.Pos()))
+				return one(abortedTop(lp))
+			}
 			return out
 		}
 		return one(oTop{"call to " + f.FullName() + " (outside the repo)"})
@@ -2976,6 +2997,9 @@ func (it *oInterp) coreLib(f *types.Func, recv oval, args []oval) ([]oval, bool)
 		return (&shpModel{errV: oIface{opaque: &oOpaque{name: "error", isError: true}}}).hostPure(f, args)
 	}
 	if out, ok := it.goLib(f, recv, args); ok {
+		return out, true
+	}
+	if out, ok := it.mutexLib(f, recv, args); ok {
 		return out, true
 	}
 	if out, ok := it.atomicLib(f, recv, args); ok {
